@@ -32,7 +32,8 @@ CLAIMS = {
             'payload placements, wrap-text templates with symbolic lines; reference un-escaper / placement as oracle',
             'Inline text: every Latin-1 payload up to the stated length that closes itself goes through the real tokenizer and must '
             'come out verbatim (un-escaped); wrap text: templates with implicit repeaters and 1-3 symbolic lines (blank lines, syntax '
-            'look-alikes included) must yield one copy per non-blank line with the trimmed line at the documented place.', '§3 C04'),
+            'look-alikes included) must yield one copy per non-blank line with the trimmed line at the documented place; multi-line text in one '
+            'element (repeated and blank lines, html and the indent syntaxes) keeps every line in order.', '§3 C04, §8.1'),
     'C12': ('differential bounded symbolic execution (CrossHair/z3): the same template expanded under two option sets with sentinel '
             'indent strings; symbolic inlineBreak, repeat counts and payload',
             'For each template and syntax of the HTML writer: format on (any inlineBreak, leaf formatting, formatSkip/Force choices) '
@@ -114,7 +115,7 @@ CLAIMS['C05'] = ('bounded symbolic execution (CrossHair/z3): expand() on value s
                  'Every sequence of up to K values over 9 number shapes x 8 units on unit-taking and unitless properties, with symbolic '
                  'intUnit/floatUnit strings, is compared piece by piece with a reference model of the value language; hex printers are value-'
                  'preserving for every channel 0..255 and the short/long/rgba/transparent form is selected correctly for all 2^24 colours '
-                 '(printers + selection lemma compose); 16 colour spellings end to end.', '§3 C05')
+                 '(printers + selection lemma compose); 20 colour spellings end to end; 13 numbers with 7+ significant digits or unusual zero spellings.', '§3 C05, §8.1')
 
 CLAIMS['C06'] = ('bounded symbolic execution (CrossHair/z3) with solver-chosen indices over the whole stylesheet snippet table, keyword table, scope and '
                  'user-key pairs; expectation from a reference reader of the definition text',
@@ -126,10 +127,10 @@ CLAIMS['C06'] = ('bounded symbolic execution (CrossHair/z3) with solver-chosen i
 
 CLAIMS['C08'] = ('bounded model checking over call histories with the solver (CrossHair/z3) choosing history, probe and sharing pattern; real expand() calls, '
                  'snapshots of caller objects and of module-level state',
-                 'Every history of up to K calls from a 16-call menu (markup/stylesheet, raising calls, wrap text, BEM, scopes, user snippets, '
+                 'Every history of up to K calls from a 20-call menu (markup/stylesheet, raising calls, wrap text, BEM, scopes, user snippets, '
                  'different units) followed by every probe, with and without a shared cache, with caller configs re-used as dict or Config: the '
                  'probe equals its pristine result, re-used configs keep giving their pristine result, caller dictionaries and every mutable '
-                 'module-level container / function default of emmet.* are unchanged.', '§3 C08')
+                 'module-level container / function default of emmet.* are unchanged. Pristine results are computed in freshly forked processes, one per call.', '§3 C08, §8.1')
 
 NOT_YET = {}
 
